@@ -13,6 +13,8 @@ pub struct Entry {
     /// deserialize the cell body (None = null cell) and give the canonical shape of the result
     pub deser: Option<fn(&ColumnType<'static>, Option<&[u8]>) -> Result<String, String>>,
     pub canon: fn(u32) -> String,
+    /// the `CqlValue` behind representative value `v` (dynamic carriers only)
+    pub dynval: Option<fn(u32) -> CqlValue>,
 }
 
 fn add_fn<T: Car>(v: u32, ct: &ColumnType, sv: &mut SerializedValues) -> Result<(), SerializationError> {
@@ -32,7 +34,11 @@ fn deser_fn<T: Car + for<'f, 'm> DeserializeValue<'f, 'm>>(ct: &ColumnType<'stat
 
 /// serialize-only carrier
 fn so<T: Car>(label: &'static str) -> Entry {
-    Entry { label, cd: T::cd(), natural: T::natural(), shape: |v| T::rep(v).shape(false), add: Some(add_fn::<T>), tc: None, deser: None, canon: |v| T::rep(v).shape(true) }
+    Entry { label, cd: T::cd(), natural: T::natural(), shape: |v| T::rep(v).shape(false), add: Some(add_fn::<T>), tc: None, deser: None, canon: |v| T::rep(v).shape(true), dynval: None }
+}
+/// dynamic carrier (`CqlValue` of shape `K`)
+fn dy<const K: u8>(label: &'static str) -> Entry {
+    Entry { dynval: Some(|v| dyn_value(K, v).0), ..so::<Dyn<K>>(label) }
 }
 /// carrier with both traits
 fn sd<T: Car + for<'f, 'm> DeserializeValue<'f, 'm>>(label: &'static str) -> Entry {
@@ -40,7 +46,7 @@ fn sd<T: Car + for<'f, 'm> DeserializeValue<'f, 'm>>(label: &'static str) -> Ent
 }
 /// type-check-only carrier (borrowed / iterator types)
 fn tco(label: &'static str, cd: CD, natural: Ty, tc: fn(&ColumnType) -> Result<(), TypeCheckError>) -> Entry {
-    Entry { label, cd, natural, shape: |_| String::new(), add: None, tc: Some(tc), deser: None, canon: |_| String::new() }
+    Entry { label, cd, natural, shape: |_| String::new(), add: None, tc: Some(tc), deser: None, canon: |_| String::new(), dynval: None }
 }
 
 fn entries() -> Vec<Entry> {
@@ -80,9 +86,11 @@ fn entries() -> Vec<Entry> {
         sd::<(Option<i32>, Option<String>, Option<Vec<f32>>)>("(Option<i32>,Option<String>,Option<Vec<f32>>)"),
         sd::<((i64,), Vec<i64>)>("((i64,),Vec<i64>)"), sd::<(bool, f64, CqlDate, Counter)>("(bool,f64,CqlDate,Counter)"),
         // CqlValue
-        so::<Dyn<0>>("CqlValue:int"), so::<Dyn<1>>("CqlValue:text"), so::<Dyn<2>>("CqlValue:empty"), so::<Dyn<3>>("CqlValue:list"),
-        so::<Dyn<4>>("CqlValue:set"), so::<Dyn<5>>("CqlValue:vector"), so::<Dyn<6>>("CqlValue:map"), so::<Dyn<7>>("CqlValue:tuple"),
-        so::<Dyn<8>>("CqlValue:udt"), so::<Dyn<9>>("CqlValue:udt-names"), so::<Dyn<10>>("CqlValue:list-of-tuples"), so::<Dyn<11>>("CqlValue:map-of-lists"),
+        dy::<0>("CqlValue:int"), dy::<1>("CqlValue:text"), dy::<2>("CqlValue:empty"), dy::<3>("CqlValue:list"),
+        dy::<4>("CqlValue:set"), dy::<5>("CqlValue:vector"), dy::<6>("CqlValue:map"), dy::<7>("CqlValue:tuple"),
+        dy::<8>("CqlValue:udt"), dy::<9>("CqlValue:udt-names"), dy::<10>("CqlValue:list-of-tuples"), dy::<11>("CqlValue:map-of-lists"),
+        dy::<12>("CqlValue:udt3"), dy::<13>("CqlValue:udt3-names"), dy::<14>("CqlValue:list-of-udt"), dy::<15>("CqlValue:tuple-of-udt"),
+        dy::<16>("CqlValue:udt-in-udt"), dy::<17>("CqlValue:map-of-udt"), dy::<18>("CqlValue:list-of-long-tuples"), dy::<19>("CqlValue:set-of-vectors"),
         // type-check-only
         tco("CqlValue", CD::Dyn, int(), |ct| <CqlValue as DeserializeValue>::type_check(ct)),
         tco("&str(de)", CD::Scalar("str"), text(), |ct| <&str as DeserializeValue>::type_check(ct)),
